@@ -566,7 +566,12 @@ func moreE2EOracles(r *e2e, t *tracker) []Oracle {
 	if r.sc.Extra != nil && r.sc.Extra["docs"] != "" {
 		json.Unmarshal([]byte(r.sc.Extra["docs"]), &c19.plants)
 	}
-	return []Oracle{
+	var extra []Oracle
+	if r.sc.Extra != nil && r.sc.Extra["footprint"] != "" {
+		r.c16 = &oC16{r: r}
+		extra = append(extra, r.c16)
+	}
+	return append(extra, []Oracle{
 		c19,
 		&oC10{r: r, t: t},
 		&oC07{r: r, t: t, anchors: anchors},
@@ -576,7 +581,7 @@ func moreE2EOracles(r *e2e, t *tracker) []Oracle {
 		&oC17{r: r, relT: map[string]int64{}, okPending: map[string]bool{}},
 		&oC18{r: r},
 		&oC15{r: r, t: t, finIDs: map[string]bool{}, discIDs: map[string]bool{}, rowHops: map[string]int{}, rowVia: map[string]string{}},
-	}
+	}...)
 }
 
 // ---------------------------------------------------------------- C15 (outlinks and finish acks reach the queue)
